@@ -312,7 +312,10 @@ pub fn run<P: Prop>(prop: &P, opts: &Opts) -> i32 {
 
     // ---- watchdog
     let done = Arc::new(AtomicBool::new(false));
-    let timeout = Duration::from_secs(prop.case_timeout_s());
+    // Where the property says nothing about termination, the watchdog only has to tell a hang from
+    // an expensive case: ten minutes, so that a loaded machine does not turn a slow case into an
+    // INCONCLUSIVE run. Where a hang is a violation the property's own limit applies.
+    let timeout = Duration::from_secs(if prop.hang_is_violation() { prop.case_timeout_s() } else { prop.case_timeout_s().max(600) });
     let hang: Arc<Mutex<Option<String>>> = Arc::new(Mutex::new(None));
 
     std::thread::scope(|scope| {
